@@ -198,7 +198,9 @@ func (p *provider) ruleSetsUpdated(ruleSets []*rule_config.RuleSet, state Bucket
 	for _, ID := range removedIDs {
 		conf := &rule_config.RuleSet{
 			MetaData: rule_config.MetaData{
-				Source:  "blob:" + ID,
+				// must be the very same source the rule set has been created with,
+				// otherwise the rule set processor cannot find the rules to remove
+				Source:  ID,
 				ModTime: time.Now(),
 			},
 		}
